@@ -512,21 +512,24 @@ def _values(s, out):
     return _values(s[-1], out)
 
 
-def boundary_inputs(tree, inputs, rng, limit=4):
-    """balance boundaries: an account that pays holds exactly the value, one less, one more"""
+def boundary_inputs(tree, inputs, rng, limit=6):
+    """balance boundaries: the paying account holds exactly the value, one less, one more
+    (the top contract first, then a pool contract), for the first inputs whose value is usable"""
     vals = _values(tree, [])
-    out = []
-    for base in inputs[:3]:
-        for e in vals[:3]:
-            v = e[1] if e[0] == "c" else base["args"].get(f"arg{e[1]}", 0)
-            if not 0 < v <= (1 << 120):
-                continue
-            for payer in (THIS, rng.choice(POOL)):
+    out, seen = [], set()
+    for payer in (THIS, rng.choice(POOL)):
+        for base in inputs:
+            for e in vals[:3]:
+                v = e[1] if e[0] == "c" else base["args"].get(f"arg{e[1]}", 0)
+                if not 0 < v <= (1 << 120) or (payer, v) in seen:
+                    continue
+                seen.add((payer, v))
                 for b in (v, v - 1, v + 1):
                     i = copy.deepcopy(base)
                     i.setdefault("balances", {})[payer] = b
                     out.append(i)
-    rng.shuffle(out)
+                if len(out) >= limit:
+                    return out[:limit]
     return out[:limit]
 
 
